@@ -7,6 +7,7 @@ from fractions import Fraction as Fr
 from sa.algebra import (Und, Rat, Poly, PW, ObjV, Atoms, Evaluator, rat_of, as_pw, ONE, ZERO, rat_sign)
 from sa.core import AnalysisError, unparse, walk_no_nested
 from sa.terms import Expander, T
+from . import idx
 from . import kin
 
 LEVEL = "other"
@@ -263,46 +264,57 @@ def _struct(repo, col):
     col.check(ok, R, fi, "Transform.__call__ == self.forward(x)", "calling a transform applies forward",
               f"__call__ returns {ex.returns[0].short() if ex.returns else None}", node=fi.node)
 
-    # ChainTransform
+    # ChainTransform: forward folds the value through the transforms in order, inverse through their inverses in reverse
+    # order -- as a loop `for t in seq: v = t(v)` or as functools.reduce(lambda v, t: t(v), seq, v)
     f, i = repo.method("ChainTransform", "forward"), repo.method("ChainTransform", "inverse")
-    for fi, want_rev, want_call in ((f, False, ("call", "forward")), (i, True, ("inverse",))):
+    for fi, want_rev in ((f, False), (i, True)):
+        ex = idx.expander(repo, fi)
+        arg = fi.params[1]
+        seq_t = step = init_ok = None
         loops = [n for n in walk_no_nested(fi.node) if isinstance(n, ast.For)]
-        if len(loops) != 1:
-            col.unk(R, fi, fi.qual, "expected exactly one loop", node=fi.node)
+        red = next((c for c in ex.calls if isinstance(c.func, (ast.Name, ast.Attribute)) and unparse(c.func).split(".")[-1] == "reduce"), None)
+        if len(loops) == 1 and red is None:
+            lp = loops[0]
+            seq_t = ex.term(lp.iter)
+            tv = lp.target.id if isinstance(lp.target, ast.Name) else None
+            if len(lp.body) == 1 and isinstance(lp.body[0], ast.Assign) and isinstance(lp.body[0].value, ast.Call):
+                c = lp.body[0].value
+                tgt = unparse(lp.body[0].targets[0])
+                if len(c.args) == 1 and unparse(c.args[0]) == arg and tgt == arg:
+                    fn_txt = unparse(c.func)
+                    step = "inverse" if fn_txt == f"{tv}.inverse" else ("forward" if fn_txt in (tv, f"{tv}.forward") else "?")
+            rets = [n for n in walk_no_nested(fi.node) if isinstance(n, ast.Return)]
+            init_ok = len(rets) == 1 and unparse(rets[0].value) == arg
+        elif red is not None and not loops:
+            rt = ex.term(red)
+            fa = [a_ for a_ in rt.args if a_.op != "free"]
+            if len(fa) == 3:
+                fn_t, seq_t, init_t = fa
+                init_ok = init_t.op == "param" and init_t.name == arg and bool(ex.returns) and ex.returns[0].key() == rt.key()
+                lam = fn_t.node
+                if isinstance(lam, ast.Lambda) and len(lam.args.args) == 2:
+                    acc, el = lam.args.args[0].arg, lam.args.args[1].arg
+                    body = lam.body
+                    if isinstance(body, ast.Call) and len(body.args) == 1 and unparse(body.args[0]) == acc:
+                        fn_txt = unparse(body.func)
+                        step = "inverse" if fn_txt == f"{el}.inverse" else ("forward" if fn_txt in (el, f"{el}.forward") else "?")
+        if seq_t is None or step is None:
+            col.unk(R, fi, fi.qual, "neither a single loop nor a reduce over the transforms recognised", node=fi.node)
             continue
-        lp = loops[0]
-        it = unparse(lp.iter)
-        is_rev = it in ("reversed(self.transforms)", "self.transforms[::-1]")
-        is_fwd = it == "self.transforms"
+        is_rev = (seq_t.op == "call" and seq_t.name == "reversed" and seq_t.args[0].pretty() == "self.transforms") or \
+                 (seq_t.op == "sub" and seq_t.args[0].pretty() == "self.transforms" and seq_t.args[1].op == "slice" and
+                  seq_t.args[1].args[2].op == "unary")
+        is_fwd = seq_t.pretty() == "self.transforms"
         col.check(is_rev if want_rev else is_fwd, R, fi, f"{fi.qual}: iteration order",
                   "forward applies the transforms in order, inverse in reverse order",
-                  f"{fi.qual} iterates `{it}`", node=lp)
-        # body: v = t.inverse(v) / v = t(v) / v = t.forward(v)
-        tv = lp.target.id if isinstance(lp.target, ast.Name) else None
-        arg = fi.params[1]
-        body_ok = False
-        if len(lp.body) == 1 and isinstance(lp.body[0], ast.Assign):
-            a = lp.body[0]
-            tgt = unparse(a.targets[0])
-            c = a.value
-            if isinstance(c, ast.Call) and len(c.args) == 1 and unparse(c.args[0]) == arg and tgt == arg:
-                if want_rev:
-                    body_ok = unparse(c.func) == f"{tv}.inverse"
-                else:
-                    body_ok = unparse(c.func) in (tv, f"{tv}.forward")
-        wrong = False
-        if not body_ok and len(lp.body) == 1 and isinstance(lp.body[0], ast.Assign) and isinstance(lp.body[0].value, ast.Call):
-            fn_txt = unparse(lp.body[0].value.func)
-            wrong = fn_txt in ((tv, f"{tv}.forward") if want_rev else (f"{tv}.inverse",))
+                  f"{fi.qual} iterates `{seq_t.short(60)}`", node=fi.node)
+        want = "inverse" if want_rev else "forward"
         col.add(R, fi, f"{fi.qual}: loop body",
-                "DISCHARGED" if body_ok else ("VIOLATED" if wrong else "UNDECIDED"),
-                ("each step feeds the running value through the element's " + ("inverse" if want_rev else "forward"))
-                if body_ok else
-                f"loop body `{unparse(lp.body[0]) if lp.body else ''}` does not thread `{arg}` through "
-                + ("`.inverse`" if want_rev else "the transform"), node=lp)
-        rets = [n for n in walk_no_nested(fi.node) if isinstance(n, ast.Return)]
-        col.check(len(rets) == 1 and unparse(rets[0].value) == arg, R, fi, f"{fi.qual}: returns the threaded value",
-                  "returns the result of the last step", "does not return the threaded value", node=fi.node)
+                "DISCHARGED" if step == want else ("VIOLATED" if step in ("forward", "inverse") else "UNDECIDED"),
+                f"each step feeds the running value through the element's {want}" if step == want else
+                f"each step applies the element's `{step}` instead of its `{want}`", node=fi.node)
+        col.check(bool(init_ok), R, fi, f"{fi.qual}: returns the threaded value", "returns the result of the last step",
+                  "does not start from the argument / return the threaded value", node=fi.node)
 
     # MaskedTransform
     for name, meth in (("forward", "forward"), ("inverse", "inverse")):
@@ -347,24 +359,51 @@ def _struct(repo, col):
               "CustomTransform stores forward_fn / inverse_fn in their own slots", "stored in their own slots",
               f"constructor stores {st}", node=init.node)
 
-    # ParamTransform
+    # ParamTransform: tree_map(f, params, self.tf_dict) with f(x, tf) = tf.<name>(x) -- f may be a lambda or a local function,
+    # the method may be looked up with getattr(tf, <constant name>), and the call may sit in a private helper of the class
     for name in ("forward", "inverse"):
         fi = repo.method("ParamTransform", name)
-        ex = Expander(repo, fi)
+        ex = idx.expander(repo, fi)
         r = ex.returns[0] if ex.returns else None
-        ok = False
+        owner_ex, binds = ex, {}
+        if r is not None and r.op == "mcall" and r.args and r.args[0].op == "param" and r.args[0].name == "self" and \
+                r.name in repo.classes["ParamTransform"].methods and r.name != "tree_map":
+            g = repo.classes["ParamTransform"].methods[r.name]
+            gex = idx.expander(repo, g)
+            m = idx._bind(g.node, list(r.args[1:]), r.kw, skip_self=True)
+            if m is not None and len(gex.returns) == 1:
+                owner_ex, binds = gex, m
+                r = idx.subst(gex.returns[0], m)
+        ok, shape, detail = False, False, r.short(120) if r is not None else None
         if r is not None and r.op == "mcall" and r.name == "tree_map" and len(r.args) == 4:
-            lam, a, b = r.args[1], r.args[2], r.args[3]
-            node = lam.node
-            if isinstance(node, ast.Lambda) and len(node.args.args) == 2:
-                p0, p1 = node.args.args[0].arg, node.args.args[1].arg
-                body = unparse(node.body)
-                ok = body == f"{p1}.{name}({p0})" and a.op == "param" and b.pretty() == "self.tf_dict"
-        shape = r is not None and r.op == "mcall" and r.name == "tree_map" and len(r.args) == 4 and \
-            isinstance(r.args[1].node, ast.Lambda)
+            fn_t, a, b = r.args[1], r.args[2], r.args[3]
+            params_, body = None, None
+            if fn_t.op == "lambda" and isinstance(fn_t.node, ast.Lambda):
+                params_ = [x.arg for x in fn_t.node.args.args]
+                body = fn_t.args[0]
+            elif fn_t.op == "localfn" and fn_t.name in owner_ex.nested:
+                ne = owner_ex.nested[fn_t.name]
+                params_ = ne.fi.params
+                body = idx.subst(ne.returns[0], binds) if len(ne.returns) == 1 else None
+            if params_ is not None and len(params_) == 2 and body is not None:
+                shape = True
+                p0, p1 = params_
+                def is_p(t_, nm):
+                    return (t_.op == "param" and t_.name in (nm, "λ" + nm)) or (t_.op in ("name", "free") and t_.name == nm)
+                meth = None
+                if body.op == "mcall" and len(body.args) == 2 and is_p(body.args[0], p1) and is_p(body.args[1], p0):
+                    meth = body.name
+                elif body.op == "callv" and len(body.args) == 2 and is_p(body.args[1], p0):
+                    fnv = body.args[0]
+                    if is_p(fnv, p1):
+                        meth = "forward"  # __call__ == forward
+                    elif fnv.op == "call" and fnv.name == "getattr" and len(fnv.args) == 2 and is_p(fnv.args[0], p1) and fnv.args[1].op == "const":
+                        meth = fnv.args[1].name
+                ok = meth == name and a.op == "param" and b.pretty() == "self.tf_dict"
+                detail = f"leaf function applies `{meth}` to ({p0}, {p1}); trees {a.short(30)}, {b.short(30)}"
         col.add(R, fi, f"ParamTransform.{name}", "DISCHARGED" if ok else ("VIOLATED" if shape else "UNDECIDED"),
                 f"tree_map(lambda x, tf: tf.{name}(x), params, self.tf_dict): each transform meets exactly its own entry"
-                if ok else f"ParamTransform.{name} returns {r.short() if r else None}", node=fi.node)
+                if ok else f"ParamTransform.{name}: {detail}", node=fi.node)
 
     # no Python branch on the value in forward/inverse of any transform
     mi = repo.mod(TF)
